@@ -12,7 +12,7 @@ use crate::{
                 sub_days, sub_months, sub_years,
             },
         },
-        format::format_date_part,
+        format::{format_date_part, unquote_part},
         parse::{parse_date_part, parse_format_string, ParseUnit, ParsedDate},
     },
     DateTime, DateUtilities,
@@ -204,10 +204,7 @@ impl Date {
 
                 // Escape parts starting with apostrophe
                 if part.starts_with('\'') {
-                    let part = part.replace('\u{0000}', "'");
-                    return part[1..part.len() - usize::from(part.ends_with('\''))]
-                        .chars()
-                        .collect::<Vec<char>>();
+                    return unquote_part(part).chars().collect::<Vec<char>>();
                 }
 
                 format_date_part(part, self.days)
